@@ -153,3 +153,52 @@ theorem C04_field_imports (w : World) (hv : Valid w) (g : Graph) (hg : hydrate w
   simp only [fieldImports, C03_type_of w hv g hg x hx]
 
 end Pgs.AST
+
+/-! ### imports of a message: the union of its fields' imports -/
+namespace Pgs.AST
+
+theorem msgFieldRefs_map {β} (r : Ref) (h : MsgHead) (F : Ref → β) :
+    (msgFieldRefs r h).map F = (idx h.fields).map (fun q => F ⟨r.file, r.path ++ [2, q.1]⟩) := by
+  unfold msgFieldRefs childRefs
+  rw [← idx_map_fst h.fields (fun k => (⟨r.file, r.path ++ [2, k]⟩ : Ref)), List.map_map]
+  rfl
+
+/-- fields of a listed message are listed fields (re-stated here to keep C04 independent of C05) -/
+theorem msgs_fields_mem' (fi : Nat) : ∀ (ms : Msgs) (p : List Nat) (tag i : Nat),
+    ∀ x ∈ msgsWithRefs fi p tag i ms, x.1.file = fi ∧
+      ∀ q ∈ idx x.2.fields, ((⟨fi, x.1.path ++ [2, q.1]⟩ : Ref), q.2) ∈ fieldsOfMsgs fi p tag i ms := by
+  intro ms
+  induction ms with
+  | nil => intro p tag i x hx; simp [msgsWithRefs] at hx
+  | cons h nested rest ih1 ih2 =>
+    intro p tag i x hx
+    simp only [msgsWithRefs, List.mem_cons, List.mem_append] at hx
+    simp only [fieldsOfMsgs, List.mem_append, List.mem_map]
+    rcases hx with (rfl | hx) | hx
+    · exact ⟨rfl, fun q hq => .inl (.inl ⟨q, hq, rfl⟩)⟩
+    · obtain ⟨a, b⟩ := ih1 _ _ _ x hx
+      exact ⟨a, fun q hq => .inl (.inr (b q hq))⟩
+    · obtain ⟨a, b⟩ := ih2 _ _ _ x hx
+      exact ⟨a, fun q hq => .inr (b q hq)⟩
+
+/-- **C04 (imports of a message)**: exactly the union, over its fields, of the other files that
+    define the types the field references (as recorded in the compared observation: sorted,
+    without duplicates). -/
+theorem C04_message_imports (w : World) (hv : Valid w) (g : Graph) (hg : hydrate w = .ok g) :
+    ∀ x ∈ allMsgs w,
+      sortNat ((msgFieldRefs x.1 x.2).map (fieldImports g)).flatten =
+      sortNat ((idx x.2.fields).map fun q => typeImports x.1.file (specType w q.2)).flatten := by
+  intro x hx
+  rw [msgFieldRefs_map]
+  congr 2
+  apply List.map_congr_left
+  intro q hq
+  simp only [allMsgs, List.mem_flatten, List.mem_map] at hx
+  obtain ⟨l, ⟨⟨fi, f⟩, hf, rfl⟩, hx⟩ := hx
+  obtain ⟨a, b⟩ := msgs_fields_mem' fi f.msgs [] 4 0 x hx
+  have hm : ((⟨x.1.file, x.1.path ++ [2, q.1]⟩ : Ref), q.2) ∈ allFields w := by
+    simp only [allFields, List.mem_flatten, List.mem_map]
+    exact ⟨_, ⟨(fi, f), hf, rfl⟩, by rw [a]; exact b q hq⟩
+  exact C04_field_imports w hv g hg _ (List.mem_append_left _ hm)
+
+end Pgs.AST
